@@ -611,11 +611,30 @@ func genPoolCases(c *Ctx) []json.RawMessage {
 		}
 		out = append(out, mustJSON(pcase))
 	}
+	// multi-MiB buffers (beyond any "do not keep buffers larger than X" threshold a Release may have): bytes readers over
+	// 16..32 MiB of caller memory consumed up to a small tail, stream readers grown that far, writers with regions and
+	// targets of that size
+	for _, S := range []int{1 << 20, 16 << 20, 16<<20 + 1, 32 << 20} {
+		for _, tail := range []int{0, 1, 100, 4096, 4097, 70000} {
+			if S == 1<<20 && tail > 100 {
+				continue
+			}
+			for _, fl := range []string{"bytes", "io"} {
+				cs := &RdCase{Fl: fl, Fk: "EOF", Seed: 7, S: S, Cap: S, Chunks: []int{-1}}
+				cs.Ops = []RdOp{{"next", 10}, {"next", S - 10 - tail}, {"release", 0}, {"peek", 1}, {"release", 0}, {"next", tail}, {"release", 0}, {"peek", 1}}
+				out = append(out, mustJSON(PoolCase{Kind: "reader", Rd: cs, CoEvery: 1, PowCap: true}))
+			}
+		}
+		ws := &WrCase{Fl: "io", Shuffle: int64(S), Ops: []WrOp{{Op: "malloc", N: 100, Lazy: true}, {Op: "malloc", N: S}, {Op: "wb", N: 5000}, {Op: "flush"}, {Op: "malloc", N: 10}, {Op: "flush"}}}
+		out = append(out, mustJSON(PoolCase{Kind: "writer", Wr: ws, CoEvery: 1}))
+		wb := &WrCase{Fl: "bytes", Init: S - 100, Cap: S, Shuffle: int64(S), Ops: []WrOp{{Op: "malloc", N: 50}, {Op: "wb", N: 200}, {Op: "flush"}, {Op: "malloc", N: 10}, {Op: "flush"}}}
+		out = append(out, mustJSON(PoolCase{Kind: "writer", Wr: wb, CoEvery: 1, PowCap: true}))
+	}
 	return out
 }
 
 func checkC09(c *Ctx) {
-	c.rule = "MC: the grow-and-park / release / flush life-cycle of reader, bytes reader, writer, bytes writer and ReaderSkipDecoder, composed with a co-tenant over 3 pool buffers, keeps the ownership invariants under every interleaving (9 steps). APALACHE: the invariants plus a strengthening (Ind_BufPool.tla) are inductive for every kind, 4 buffers, runs of any length (base, step, negative control, probes). TLAPS: Proof_BufPool.tla proves MCSpec => []IndInv for an arbitrary set of pool buffers (41 obligations; a negative control must fail). TRACE: real histories over the instrumented pool double (registry, poison-on-free, foreign/double-free detection) that retain every handed-out slice across later operations, with the co-tenant draining and scribbling every size class between operations, and a second live reader growing / releasing on its own schedule next to the one under test; every pool event must be an enabled BufPool action (P1..P5) and every content/caller-memory/disjointness monitor event must be ok."
+	c.rule = "MC: the grow-and-park / release / flush life-cycle of reader, bytes reader, writer, bytes writer and ReaderSkipDecoder, composed with a co-tenant over 3 pool buffers, keeps the ownership invariants under every interleaving (9 steps). APALACHE: the invariants plus a strengthening (Ind_BufPool.tla) are inductive for every kind, 4 buffers, runs of any length (base, step, negative control, probes). TLAPS: Proof_BufPool.tla proves MCSpec => []IndInv for an arbitrary set of pool buffers (41 obligations; a negative control must fail). TRACE: real histories over the instrumented pool double (registry, poison-on-free, foreign/double-free detection) that retain every handed-out slice across later operations, with the co-tenant draining and scribbling every size class between operations, and a second live reader growing / releasing on its own schedule next to the one under test; every pool event must be an enabled BufPool action (P1..P5) and every content/caller-memory/disjointness monitor event must be ok. Also multi-MiB buffers: bytes readers over 1 / 16 / 16+ / 32 MiB of caller memory and stream readers grown that far, consumed up to a tail of 0..70000 bytes and released; writers with regions and targets of that size."
 	for _, k := range []string{"reader", "bytesreader", "writer", "byteswriter", "decoder"} {
 		c.MC("MC_BufPool.tla", "MC_BufPool_"+k+".cfg", 4)
 	}
